@@ -4,7 +4,10 @@ import (
 	"fmt"
 	"sort"
 
+	"golang.org/x/tools/go/callgraph/cha"
+	"golang.org/x/tools/go/callgraph/vta"
 	"golang.org/x/tools/go/ssa"
+	"golang.org/x/tools/go/ssa/ssautil"
 )
 
 func init() {
@@ -25,6 +28,32 @@ func ruleOwnModel(c *Ctx) *RuleResult {
 	sort.Strings(keys)
 	for _, k := range keys {
 		r.undecided("unknown-effect|"+k, c.pos(e.unknown[k]), "", "no effect model for this call: the mod analysis cannot decide what it writes")
+	}
+	if c.Tier == "thorough" {
+		// cross-check the call-graph resolution against VTA (over CHA)
+		cg := vta.CallGraph(ssautil.AllFunctions(c.Prog), cha.CallGraph(c.Prog))
+		missing := 0
+		checked := 0
+		for fn, node := range cg.Nodes {
+			if fn == nil || fn.Pkg != c.SLib {
+				continue
+			}
+			for _, ed := range node.Out {
+				callee := ed.Callee.Func
+				if callee == nil || callee.Pkg != c.SLib || callee.Blocks == nil {
+					continue
+				}
+				checked++
+				if callee.Synthetic != "" {
+					continue
+				}
+				if !e.calls[fn][callee] {
+					missing++
+					r.undecided("vta-edge|"+fname(fn)+"->"+fname(callee), c.pos(ed.Pos()), fname(fn), "VTA knows a call edge that the mod analysis did not resolve")
+				}
+			}
+		}
+		r.Notes = append(r.Notes, fmt.Sprintf("VTA cross-check: %d intra-library call edges, %d unknown to the mod analysis", checked, missing))
 	}
 	r.ok("fixpoint", "-", "", fmt.Sprintf("points-to fixpoint after %d passes: %d functions, %d abstract objects, %d write events, %d call edges", e.iters, len(e.funcs), len(e.objs), len(e.writes), func() int {
 		n := 0
